@@ -57,39 +57,87 @@ def child_main(argv: list[str]) -> int:
 
 
 # ----------------------------------------------------------------------------------------- parent
-def run_children(pid: str, tier: str, seed: int, shards: list[dict], watchdog: float) -> list[dict]:
-    work = tempfile.mkdtemp(prefix=f"vmon-{pid}-")
-    results: list[dict] = []
+GRACE_AFTER_VIOLATION = float(os.environ.get("VMON_GRACE", "25"))
 
-    def one(i: int, shard: dict) -> dict:
+
+def run_children(pid: str, tier: str, seed: int, shards: list[dict], watchdog: float) -> list[dict]:
+    """One subprocess per shard, WORKERS at a time. Once some shard has reported a violation (a witness exists), the
+    remaining shards get a short grace period and are then stopped: their absence cannot turn 'violated' into anything else,
+    and a tree that makes some workload hang must not hide a witness found elsewhere behind the watchdog."""
+    import threading
+
+    work = tempfile.mkdtemp(prefix=f"vmon-{pid}-")
+    results: list = [None] * len(shards)
+    lock = threading.Lock()
+    state = {"violation_at": None}
+    procs: dict = {}
+
+    def one(i: int, shard: dict) -> None:
+        with lock:
+            if state["violation_at"] is not None and time.time() > state["violation_at"] + GRACE_AFTER_VIOLATION:
+                results[i] = {"stopped": True}
+                return
         sf = os.path.join(work, f"s{i}.json")
         of = os.path.join(work, f"o{i}.json")
         with open(sf, "w") as f:
             json.dump(shard, f)
         cmd = [env.PY, "-m", "vmon.runner", "--child", pid, tier, str(seed), sf, of]
         extra = dict(shard.get("env") or {})
-        try:
-            p = subprocess.run(cmd, env=env.child_env(extra), cwd=env.VERIF, capture_output=True,
-                               text=True, timeout=watchdog)
-        except subprocess.TimeoutExpired:
-            return {"inconclusive": [f"watchdog ({watchdog:.0f}s) fired in shard {shard.get('name')}"]}
+        errf = open(os.path.join(work, f"e{i}.txt"), "w+")
+        p = subprocess.Popen(cmd, env=env.child_env(extra), cwd=env.VERIF, stdout=subprocess.DEVNULL, stderr=errf, text=True)
+        with lock:
+            procs[i] = p
+        t0 = time.time()
+        stopped = False
+        while True:
+            try:
+                p.wait(timeout=1.0)
+                break
+            except subprocess.TimeoutExpired:
+                now = time.time()
+                with lock:
+                    va = state["violation_at"]
+                if va is not None and now > va + GRACE_AFTER_VIOLATION:
+                    p.kill()
+                    p.wait()
+                    stopped = True
+                    break
+                if now - t0 > watchdog:
+                    p.kill()
+                    p.wait()
+                    results[i] = {"inconclusive": [f"watchdog ({watchdog:.0f}s) fired in shard {shard.get('name')}"]}
+                    return
+        if stopped:
+            results[i] = {"stopped": True}
+            return
+        errf.seek(0)
+        stderr = errf.read()
+        errf.close()
         if not os.path.exists(of):
-            tail = (p.stderr or "")[-1500:]
-            return {"inconclusive": [f"shard {shard.get('name')} died (exit {p.returncode}): {tail}"]}
+            results[i] = {"inconclusive": [f"shard {shard.get('name')} died (exit {p.returncode}): {stderr[-1500:]}"]}
+            return
         with open(of) as f:
             r = json.load(f)
-        if p.stderr and p.stderr.strip():
-            r.setdefault("diagnostics", []).append("stderr: " + p.stderr.strip()[-500:])
-        return r
+        if stderr.strip():
+            r.setdefault("diagnostics", []).append("stderr: " + stderr.strip()[-500:])
+        if r.get("violations"):
+            with lock:
+                if state["violation_at"] is None:
+                    state["violation_at"] = time.time()
+        results[i] = r
 
     try:
         with concurrent.futures.ThreadPoolExecutor(max_workers=WORKERS) as ex:
             futs = [ex.submit(one, i, s) for i, s in enumerate(shards)]
             for f in futs:
-                results.append(f.result())
+                f.result()
     finally:
         shutil.rmtree(work, ignore_errors=True)
-    return results
+    out = [r for r in results if r is not None and not r.get("stopped")]
+    n_stopped = sum(1 for r in results if r is not None and r.get("stopped"))
+    if n_stopped:
+        out.append({"diagnostics": [f"{n_stopped} shard(s) were stopped {GRACE_AFTER_VIOLATION:.0f}s after another shard reported a violation"]})
+    return out
 
 
 def merge(results: list[dict]) -> dict:
